@@ -88,6 +88,11 @@ def run(ctx):
         # ... the error renderer's "did you mean" table is indexed by character counts, and the splitter never hands an empty short name to construct
         ctx.guard(c08.keep_only, ctx, lambda: c04.unit_agreement(ctx, cfg, fs), lambda o: True, 'P.no-abort')
         ctx.guard(c08.keep_only, ctx, lambda: c04.short_name_nonempty(ctx, cfg, fs), lambda o: True, 'P.no-abort')
+        import c02 as c02_, c06 as c06_
+        # "a parsed value is returned only on success": text that is not valid utf8 is refused, not patched (shared with C02); the outcome of an
+        # entered command (its help, its error) is never rolled back by catch (shared with C06)
+        ctx.guard(c08.keep_only, ctx, lambda: c02_.lossless(ctx, cfg, fs), lambda o: 'parse_os_str' in o.key, 'N.non-empty')
+        ctx.guard(c08.keep_only, ctx, lambda: c06_.k3(ctx, cfg, fs, c06_.k1(ctx, cfg, fs)), lambda o: o.rule == 'K3.consult' and 'ParseFailure' in o.key, 'H.help-is-output')
         ctx.guard(run_flow, ctx, cfg, fs)
         ctx.guard(argv0, ctx, cfg, fs)
         ctx.guard(who, ctx, cfg, fs)
